@@ -13,7 +13,9 @@ CONSTANT Bound
 VARIABLE l
 Ev == Trace[l]
 Ok(e) == /\ e.stall_ms > 150 \/ e.late_ms <= Bound
-         /\ e.res = (IF e.change \in {"put", "putprev"} THEN "nil" ELSE "notexist")
+         \* whatever write replaced the record with a live one: nil; whatever removed it - a Delete, or a Put / PutMany /
+         \* CasByVersion of a record that is already expired when it arrives (an expired record is a deleted one): ErrNotExist
+         /\ e.res = (IF e.change \in {"put", "putprev", "putmany", "cas"} THEN "nil" ELSE "notexist")
 OkDeadline(e) ==
     IF e.change = "none"
     THEN /\ e.res = "ctxerr" /\ e.ctxdone
